@@ -396,10 +396,9 @@ func (c *compiler) node(ctx *Mod, n *Node) *XNode {
 		c.addBody(x, ctx, n.Kids)
 	}
 	switch n.Kind {
-	case KRPC:
+	case KRPC, KAction:
+		// an rpc or action has an input and an output even if it declares neither
 		x.HasRPC = true
-	case KAction:
-		x.HasRPC = x.Input != nil || x.Output != nil
 	}
 	// definitions in local scope are checked for resolvability too
 	for _, td := range n.Typedefs {
